@@ -7,6 +7,7 @@ mod ext;
 mod hnd;
 mod meta;
 mod mgr;
+mod sys;
 mod url;
 mod util;
 
@@ -28,6 +29,7 @@ fn main() {
         "hnd" => hnd::run(&lines),
         "conn" => c06::run(&lines),
         "url" => url::run(&lines),
+        "sys" => sys::run(&lines),
         other => {
             eprintln!("unknown property {}", other);
             std::process::exit(2);
